@@ -107,3 +107,48 @@ func HC18Corrupt() {
 	vAssert(!Tar(h2, limit), "corrupted-header-rejected")
 	vReach("end")
 }
+
+// c18Pin assumes h[off:off+len(sp)] == sp.
+func c18Pin(h []byte, off int, sp []byte) {
+	for i, b := range sp {
+		vAssume(h[off+i] == b)
+	}
+}
+
+// HC18Writer: headers as real writers lay them out: the numeric fields (mode, uid, gid, size, mtime) carry one
+// of the spellings writers emit - zero-padded octal with NUL or space terminator, all NULs (unused), or the GNU
+// base-256 form (first byte 0x80 / 0xff) that archive/tar and GNU tar use for values that do not fit: sizes of
+// 8 GiB and more, ids above 2097151, negative or far-future mtimes - while name, link name, magic, owner names
+// and prefix stay symbolic, and the checksum is the writer's. Pinned fields are concrete for the code under
+// test, so whatever it does with them costs no solver work. Every such header must be accepted.
+func HC18Writer() {
+	h := vBytes("h", 512, 512)
+	oct8 := [][]byte{[]byte("0000644\x00"), []byte("0001750\x00"), []byte("000644 \x00"), {0, 0, 0, 0, 0, 0, 0, 0},
+		{0x80, 0, 0, 0, 0, 0x20, 0, 1}, {0xff, 0xff, 0xff, 0xff, 0xff, 0xff, 0xff, 0xfe}}
+	oct12 := [][]byte{[]byte("00000001750\x00"), []byte("14371573422\x00"), []byte("00000000000 "),
+		{0x80, 0, 0, 0, 0, 0, 0, 2, 0, 0, 0, 0}, {0xff, 0xff, 0xff, 0xff, 0xff, 0xff, 0xff, 0xff, 0xff, 0xff, 0xfe, 0x0c}}
+	which := vChoice("field", 5)
+	k := vChoice("spellingOfField", 6)
+	// every field is plain octal except the chosen one, which takes the k-th spelling of its width
+	offs := [5]int{100, 108, 116, 124, 136}
+	for f := 0; f < 5; f++ {
+		wide := f >= 3
+		idx := 0
+		if f == 1 || f == 2 || f == 4 {
+			idx = 1
+		}
+		if f == which {
+			idx = k
+		}
+		if wide {
+			vAssume(idx < len(oct12))
+			c18Pin(h, offs[f], oct12[idx])
+		} else {
+			c18Pin(h, offs[f], oct8[idx])
+		}
+	}
+	c18WriterHeader(h)
+	limit := vUint32("limit")
+	vAssert(Tar(h, limit), "writer-style-header-accepted")
+	vReach("end")
+}
